@@ -166,7 +166,9 @@ def gen_args(name, rng, tier):
         T = se3.poe_space(M, S, th_goal) if name == "IKinSpace" else np.asarray(M) @ np.linalg.multi_dot(
             [np.eye(4)] + [se3.exp6(S[:, i] * th_goal[i]) for i in range(n)] + [np.eye(4)])
         k = rng.random()
-        if k < 0.6:
+        if k < 0.15:
+            th0 = th_goal + rng.normal(size=n) * 10 ** rng.uniform(-7, -3)      # already within one tolerance, maybe not the other
+        elif k < 0.6:
             th0 = th_goal + rng.normal(size=n) * 0.05
         elif k < 0.85:
             th0 = th_goal + rng.normal(size=n) * 0.5
